@@ -31,6 +31,21 @@ pub mod logger_handle {
                 final(self).rest_same(old(self)),
         { unimplemented!() }
 
+        /// SHIM for `pub fn parse_new_spec(&self, spec: &str)`, declared `&mut self` like set_new_spec (unit handle_b proves: the
+        /// parsed specification is activated, a rejected string changes nothing); not called by the code as it is — specified
+        /// so that a refactoring which routes through it is decided instead of being rejected by the compiler
+        #[verifier::external_body]
+        pub fn parse_new_spec(&mut self, spec: &str) -> (r: Result<(), FlexiLoggerError>)
+            requires
+                parse_result(spec@) is Ok ==> LoggerHandle::set_ok(parse_result(spec@)->Ok_0), //@label parse_new_spec.perm C05
+            ensures
+                r is Ok <==> parse_result(spec@) is Ok,
+                r is Ok ==> final(self).active() == parse_result(spec@)->Ok_0,
+                r is Err ==> final(self).active() == old(self).active(),
+                final(self).stack() == old(self).stack(),
+                final(self).rest_same(old(self)),
+        { unimplemented!() }
+
     //@ fn src/logger_handle.rs impl LoggerHandle / fn push_temp_spec
     //@   props C05
     //@   req[push.pre.perm] forall|s: LogSpecification| #[trigger] LoggerHandle::set_ok(s) <==> s == new_spec
@@ -48,6 +63,7 @@ pub mod logger_handle {
     //@   props C05
     //@   attr #[verifier::allow(undeclared_external_trait)]
     //@   rule R3 *
+    //@   rule R22 *
     //@   req[parse_and_push.pre.perm] forall|s: LogSpecification| #[trigger] LoggerHandle::set_ok(s) <==> (parse_result(as_str_view::<S>(new_spec)) is Ok && s == parse_result(as_str_view::<S>(new_spec))->Ok_0)
     //@   ens[parse_and_push.post.ok] parse_result(as_str_view::<S>(new_spec)) is Ok ==> r is Ok && final(self).stack() == old(self).stack().push(old(self).active())
     //@       && final(self).active() == parse_result(as_str_view::<S>(new_spec))->Ok_0
